@@ -6,6 +6,7 @@ Python source on every run into Gallina terms, and coqc proves that Model/Nnls.v
   hals_cold_start   the `if V is None:` block (clip, rescaling with its guard), matrix level
   fista_step        x_gradient / x_new / tl.where (non_negative=True), entry (i, j)
   fista_loop_step   momentum extrapolation, norm = sum |x - x_new|, stopping test, copy
+  aset_step         active_set_nnls inner loop: ratio, the move x + alpha (s - x), blocking coordinates attaining alpha put on the bound
   admm_none         x = transpose(solve(transpose(UtU), transpose(UtM)))
 Fail closed: a construct the translator does not know is a broken tie."""
 import ast
@@ -89,13 +90,14 @@ class Entry:
                 return lambda i, j: f"(fmax Rops {l(i, j)} {x(i, j)})"
             if nm == "where" and len(e.args) == 3:
                 c = e.args[0]
-                if not (isinstance(c, ast.Compare) and len(c.ops) == 1 and isinstance(c.ops[0], (ast.Lt, ast.Gt))):
+                if not (isinstance(c, ast.Compare) and len(c.ops) == 1 and isinstance(c.ops[0], (ast.Lt, ast.Gt, ast.LtE, ast.GtE))):
                     raise Untranslatable("where condition")
                 l, r_ = self.expr(c.left), self.expr(c.comparators[0])
-                if isinstance(c.ops[0], ast.Gt):
+                if isinstance(c.ops[0], (ast.Gt, ast.GtE)):
                     l, r_ = r_, l
+                dec = "Rlt_dec" if isinstance(c.ops[0], (ast.Lt, ast.Gt)) else "Rle_dec"
                 a, b = self.expr(e.args[1]), self.expr(e.args[2])
-                return lambda i, j: f"(if Rlt_dec {l(i, j)} {r_(i, j)} then {a(i, j)} else {b(i, j)})"
+                return lambda i, j: f"(if {dec} {l(i, j)} {r_(i, j)} then {a(i, j)} else {b(i, j)})"
             if nm == "copy" and len(e.args) == 1:
                 return self.expr(e.args[0])
         raise Untranslatable(ast.dump(e)[:90])
@@ -471,12 +473,81 @@ def tie_admm_none(tree):
             f"  fst (fst (admm_none Rops solve UtM UtU x dual m r (S it))) = {v[1]}.\nProof. intros. reflexivity. Qed.\n")
 
 
+def tie_aset_step(tree):
+    """the interpolation step of active_set_nnls's inner loop (the lines repaired by dadc3ff): ratio, the move x + alpha (s - x), and
+    the coordinates attaining alpha put exactly on the bound"""
+    fn = _func(tree, "active_set_nnls")
+    outer = _for_over(fn.body, "iteration")
+    guard = [s for s in outer.body if isinstance(s, ast.If) and any(isinstance(x, ast.For) for x in s.body)]
+    if len(guard) != 1:
+        raise Untranslatable("`if tl.min(support_vec[passive_set]) <= 0:` with the inner loop not found")
+    inner = next(x for x in guard[0].body if isinstance(x, ast.For))
+    body = inner.body
+
+    def special(e, tr):
+        if isinstance(e, ast.Subscript) and isinstance(e.value, ast.Name) and isinstance(e.slice, ast.Name) and e.slice.id == "blocking":
+            return tr.expr(e.value)          # X[blocking]: the same entry, on a blocking coordinate
+        if isinstance(e, ast.Call) and _callname(e) == "min" and len(e.args) == 1 and isinstance(e.args[0], ast.Name) and e.args[0].id == "ratio":
+            return lambda i, j: "alpha"
+        return None
+
+    tr = Entry({"x_vec": lambda i, j: "a", "support_vec": lambda i, j: "b"}, {}, special)
+    res = {}
+
+    def stop(s, tr_):
+        if isinstance(s, ast.Assign) and isinstance(s.targets[0], ast.Name) and s.targets[0].id == "blocking":
+            v = s.value
+            ok = isinstance(v, ast.BinOp) and isinstance(v.op, ast.BitAnd) and isinstance(v.left, ast.Name) and v.left.id == "passive_set" and \
+                isinstance(v.right, ast.Compare) and isinstance(v.right.left, ast.Name) and v.right.left.id == "support_vec" and \
+                isinstance(v.right.ops[0], ast.LtE) and _num(v.right.comparators[0]) == "0"
+            if not ok:
+                raise Untranslatable("blocking is not `passive_set & (support_vec <= 0)`")
+            tr_.env["blocking"] = lambda i, j: "blocking"
+            res["blocking"] = True
+            return None
+        if isinstance(s, ast.Assign) and isinstance(s.value, ast.Call) and _callname(s.value) == "index_update":
+            a = s.value.args
+            if not (len(a) == 3 and isinstance(a[0], ast.Name) and a[0].id == "x_vec" and isinstance(a[1], ast.Subscript) and
+                    isinstance(a[1].slice, ast.Name) and a[1].slice.id == "blocking"):
+                raise Untranslatable("index_update form")
+            return (tr_.env["x_vec"], tr_.expr(a[2]), tr_.env.get("ratio"))
+        return None
+
+    # `blocking = ...` is consumed by stop (returns None after recording); run() would then try to translate it: filter it out afterwards
+    class _E(Entry):
+        def run(self, stmts, stop_):
+            for s in stmts:
+                r_ = stop_(s, self)
+                if r_ is not None:
+                    return r_
+                if isinstance(s, ast.Assign) and isinstance(s.targets[0], ast.Name) and s.targets[0].id == "blocking":
+                    continue
+                r2 = Entry.run(self, [s], lambda *_: None)
+            return None
+    tr.__class__ = _E
+    out = tr.run(body, stop)
+    if out is None or not res.get("blocking") or out[2] is None:
+        raise Untranslatable("blocking / ratio / index_update of x_vec[blocking] not found in the inner loop")
+    moved, onbound, ratio = out
+    return ("Goal forall a b : R, ratio Rops a b = " + ratio("i", "j") + ".\nProof. intros. reflexivity. Qed.\n"
+            "Goal forall a b alpha : R, b <= 0 ->\n"
+            f"  nth 0 (as_step Rops (fun v => v) alpha [true] [a] [b]) 0 = {onbound('i', 'j')}.\n"
+            "Proof.\n  intros. cbn [as_step map3 nth]. unfold ratio. cbn [fleb fdiv fsub fadd fmul f0 Rops]. unfold Rleb.\n"
+            "  destruct (Rle_dec b 0); [|lra]. cbn [andb].\n"
+            "  repeat match goal with |- context [Rle_dec ?u ?v] => destruct (Rle_dec u v) end; try lra; try ring.\nQed.\n"
+            "Goal forall (a b alpha : R) (p : bool), p = false \\/ 0 < b ->\n"
+            f"  nth 0 (as_step Rops (fun v => v) alpha [p] [a] [b]) 0 = {moved('i', 'j')}.\n"
+            "Proof.\n  intros a b alpha p [-> | H]; cbn [as_step map3 nth andb fadd fmul fsub Rops]; [ring|]. cbn [fleb f0 Rops]. unfold Rleb.\n"
+            "  destruct (Rle_dec b 0); [lra|]. rewrite andb_false_r. cbn [andb]. ring.\nQed.\n")
+
+
 def ties(nnls_src, admm_src):
     """-> list of (name, goal text or None, reason)"""
     out = []
     t1, t2 = ast.parse(nnls_src), ast.parse(admm_src)
     for name, f, tree in (("hals_row_update", tie_hals_row, t1), ("hals_stop_rule", tie_hals_stop, t1), ("hals_cold_start", tie_hals_cold, t1),
-                          ("fista_step", tie_fista_step, t1), ("fista_loop_step", tie_fista_loop, t1), ("admm_none", tie_admm_none, t2)):
+                          ("fista_step", tie_fista_step, t1), ("fista_loop_step", tie_fista_loop, t1), ("aset_step", tie_aset_step, t1),
+                          ("admm_none", tie_admm_none, t2)):
         try:
             out.append((name, f(tree), None))
         except (Untranslatable, KeyError, IndexError, AttributeError, TypeError) as e:
